@@ -70,6 +70,7 @@ class State:
         self.dlog = []          # (n_alternatives) for every decision taken
         self.trace = []         # human-readable path description
         self.ver = 0
+        self.mute = False
 
     def bump(self, what):
         self.ver += 1
@@ -84,7 +85,7 @@ class State:
         self.pc.append((term, kind))
 
     def oblige(self, goal, note, lineno=0, kind='safety'):
-        if goal == smt.TRUE:
+        if goal == smt.TRUE or self.mute:
             return
         if goal.startswith('(and '):
             parts = smt.split_top(goal[5:-1])
@@ -124,4 +125,5 @@ class State:
         s.obligations = self.obligations
         s.decisions, s.dpos, s.dlog, s.trace = self.decisions, self.dpos, self.dlog, self.trace
         s.ver = self.ver
+        s.mute = self.mute
         return s
